@@ -63,3 +63,32 @@ Example C13_ex_strncpy :
 Proof. vm_compute. reflexivity. Qed.
 Example C13_ex_substr : substr (cstr [97; 98; 99; 100; 101; 102] []) (-4) 2 = Ok (Some [99; 100]).
 Proof. vm_compute. reflexivity. Qed.
+
+(* ---- chomp, condense_whitespace, strrev (proofs in Strings/HelpersProofs2.v) ---- *)
+From LV Require Import Strings.HelpersProofs2.
+
+Theorem C13_chomp_exact : forall (s : list Z) rest, Forall nz_byte s ->
+  exists junk, length junk = (length s - length (trim_ws s))%nat /\
+    chomp (cstr s rest) = Ok (cstr (trim_ws s) (junk ++ rest)).
+Proof. exact chomp_exact. Qed.
+Print Assumptions C13_chomp_exact.
+
+Theorem C13_condense_exact : forall (s : list Z) rest, Forall nz_byte s ->
+  condense_whitespace (cstr s rest) = Ok (cstr (condense_spec s) []).
+Proof. exact condense_exact. Qed.
+Print Assumptions C13_condense_exact.
+
+Theorem C13_condense_never_longer : forall s : list Z, (length (condense_spec s) <= length s)%nat.
+Proof. exact condense_spec_length. Qed.
+Print Assumptions C13_condense_never_longer.
+
+Theorem C13_strrev_exact : forall (s : list Z) rest, Forall nz_byte s ->
+  strrev (cstr s rest) = Ok (cstr (rev s) rest).
+Proof. exact strrev_exact. Qed.
+Print Assumptions C13_strrev_exact.
+
+(* the guard repaired by /repo commit 45e55a7: the original `pbuff >= s` read s[-1] on "" *)
+Theorem C13_condense_orig_guard_faults : forall rest,
+  condense_whitespace_gen false (cstr [] rest) = Fault OOB_read.
+Proof. exact condense_orig_guard_faults. Qed.
+Print Assumptions C13_condense_orig_guard_faults.
